@@ -136,7 +136,14 @@ def b_isinstance(interp, x, t):
     from .interp import ModelObject as _MO
 
     if isinstance(x, _MO) and hasattr(x, "pv_isinstance"):
-        return any(isinstance(tt, Builtin) and x.pv_isinstance(tt.name) for tt in ts)
+        def tname(tt):
+            if isinstance(tt, Builtin):
+                return tt.name
+            if isinstance(tt, External):
+                return tt.dotted
+            return getattr(tt, "name", None)
+
+        return any(tname(tt) is not None and x.pv_isinstance(tname(tt)) for tt in ts)
     for tt in ts:
         if isinstance(tt, Builtin):
             nm = tt.name
@@ -205,7 +212,17 @@ def b_setattr(interp, obj, name, value):
 
 
 def b_str(interp, x=""):
-    return x if isinstance(x, str) else "<str>"
+    if isinstance(x, str):
+        return x
+    if isinstance(x, (bool, int)) or (isinstance(x, float) and x == x):
+        return str(x)  # concrete number: Python's own spelling
+    if interp.cx.ghost.get("structured_fstrings"):
+        from . import values as V_
+        from .strings import Num
+
+        if V_.is_z3(x) and V_.kind_of(x) == "int":
+            return Num(x)
+    return "<str>"
 
 
 def b_list(interp, x=()):
